@@ -74,6 +74,9 @@ pub fn next_solution_append<'a>(bip: BuiltInPredicate,
 
         } // for
 
+        // A Nil at the end keeps make_linked_list() from splicing
+        // a last element which is itself a list into the result.
+        if out_terms.len() > 0 { out_terms.push(Unifiable::Nil); }
         let out = make_linked_list(false, out_terms);
         let last_term = terms[length - 1].clone();
 
